@@ -509,10 +509,17 @@ class Buildable(Generic[T], metaclass=abc.ABCMeta):
     )
     var_positional_start = self.__signature_info__.var_positional_start
     index_range = slice_key.indices(len(all_positional_args))
-    if var_positional_start is None or index_range[0] < var_positional_start:
+    indices = range(*index_range)
+    if var_positional_start is None:
+      spans_non_variadic = True
+    elif indices:
+      spans_non_variadic = min(indices) < var_positional_start
+    else:
+      # Empty slice: values would be inserted at its start.
+      spans_non_variadic = index_range[0] < var_positional_start
+    if spans_non_variadic:
       # The slice key spans on non-variadic positional arguments, this set item
       # operation cannot modify the total length of full positiona args list.
-      indices = range(*index_range)
       if len(indices) != len(value):
         raise ValueError(
             'Cannot modify the total length of full positional arguments list'
@@ -530,6 +537,9 @@ class Buildable(Generic[T], metaclass=abc.ABCMeta):
       ]
       new_placeholders = old_placeholders.copy()
       new_placeholders[slice_key] = value
+      # Placeholders refer to the values from before this edit; read them from
+      # a snapshot, since the loops below overwrite `self.__arguments__`.
+      old_arguments = self.__arguments__.copy()
       for index in range(var_positional_start, len(old_placeholders)):
         if index < len(new_placeholders):
           new_value = new_placeholders[index]
@@ -537,7 +547,7 @@ class Buildable(Generic[T], metaclass=abc.ABCMeta):
             if new_value == old_placeholders[index]:
               continue
             else:
-              new_value = self.__arguments__[new_value.index]
+              new_value = old_arguments[new_value.index]
           self._arguments_set_value(index, new_value)
         else:
           self._arguments_del_value(index)
@@ -546,7 +556,7 @@ class Buildable(Generic[T], metaclass=abc.ABCMeta):
       for index in range(len_old, len_new):
         new_value = new_placeholders[index]
         if isinstance(new_value, _Placeholder):
-          new_value = self.__arguments__[new_value.index]
+          new_value = old_arguments[new_value.index]
         self._arguments_set_value(index, new_value)
 
   def __setitem__(self, key: Any, value: Any):
